@@ -42,10 +42,19 @@ from mpsa.loader import FuncInfo as _FI
 out['__locals__'] = {rel: {q: local_skeleton(fi.node) for q, fi in m.functions.items() if not isinstance(fi.parent, _FI)} for rel, m in repo.modules.items()}
 from mpsa.normalize import attribute_signatures
 # signature of every attribute name per module, taken from the files as they are (mpsa/normalize.attribute_renames)
-out['__attrs__'] = {rel: attribute_signatures(_ast.parse(m.source)) for rel, m in repo.modules.items()}
 from mpsa.normalize import class_signatures, identifiers
-out['__classes__'] = {rel: class_signatures(_ast.parse(m.source)) for rel, m in repo.modules.items()}
-out['__words__'] = sorted(set().union(*[identifiers(_ast.parse(m.source)) for m in repo.modules.values()]))
+from mpsa.normalize import canonicalize as _canon
+
+
+def _canon_parse(src):
+    t = _ast.parse(src)
+    _canon(t)
+    return t
+
+
+out['__attrs__'] = {rel: attribute_signatures(_canon_parse(m.source)) for rel, m in repo.modules.items()}
+out['__classes__'] = {rel: class_signatures(_canon_parse(m.source)) for rel, m in repo.modules.items()}
+out['__words__'] = sorted(set().union(*[identifiers(_canon_parse(m.source)) for m in repo.modules.values()]))
 from mpsa.normalize import symmetric_comparisons
 out['__cmps__'] = {rel: {q: symmetric_comparisons(fi.node) for q, fi in m.functions.items() if not isinstance(fi.parent, _FI)} for rel, m in repo.modules.items()}
 out['__all__'] = {rel: sorted(q for q in m.functions if '#' not in q) for rel, m in repo.modules.items()}
